@@ -119,8 +119,23 @@ class C14(Prop):
             op = rng.choice(['always', 'once', 'eventually', 'historically'])
             bound = rng.choice(['%s%s' % (b, u2), 'kk', 'kk %s' % u2 if u2 else 'kk'])
             return '%s[%s%s,%s] (%s)' % (op, a, u1, bound, t.rstrip(';'))
-        lit = rng.choice(['0x1F', '0b101', '1_000', '007', '1e400', '1.', '.5e-3', '00', '0x', '1__0', '9' * 40])
-        return '(%s) and (x >= %s)' % (t.rstrip(';'), lit)
+        if r < 0.95:
+            lit = rng.choice(['0x1F', '0b101', '1_000', '007', '1e400', '1.', '.5e-3', '00', '0x', '1__0', '9' * 40])
+            return '(%s) and (x >= %s)' % (t.rstrip(';'), lit)
+        # numeric edges: literals of extreme magnitude or length (all tokens of the language) in a predicate, as an
+        # interval bound, or as the value of a declared constant used as a bound
+        big = rng.choice(['1e400', '1e309', '9' * 310, '9' * rng.choice([4299, 4300, 4301, 4400, 9000]), '1e4400',
+                          '1' + '0' * 4400 + '.5', '1e-400', '0.' + '0' * 4400 + '1', '0.' + '1' * 5000, '1e-5000',
+                          '1.7976931348623157e308', '1.7976931348623159e308', '4.9e-324', '2e-324'])
+        op = rng.choice(['always', 'once', 'eventually', 'historically'])
+        k = rng.random()
+        if k < 0.3:
+            return '(%s) and (x >= %s)' % (t.rstrip(';'), big)
+        if k < 0.6:
+            return '%s[0%s%s%s] (%s)' % (op, rng.choice([':', ',']), big, rng.choice(['', '', 's', 'ms']), t.rstrip(';'))
+        if k < 0.8:
+            return '%s[%s:%s] (%s)' % (op, big, big, t.rstrip(';'))
+        return 'const float kbig = %s;\nout = %s[0:kbig] (%s)' % (big, op, t.rstrip(';').replace('out = ', ''))
 
     def gen(self, rng, ctx):
         r = rng.random()
